@@ -218,6 +218,9 @@ func NewStats() *Stats {
 
 func (st *Stats) Absorb(r *Run) {
 	st.Runs++
+	if r.Sim.ForeignSeen() {
+		st.Counters["info.runs_in_which_the_library_spawned_goroutines_(not_exactly_replayable)"]++
+	}
 	st.SimSteps += r.Sim.Steps
 	st.IterEvents += r.Sim.IterEvents
 	st.IterPermuted += r.Sim.IterPermuted
